@@ -278,7 +278,7 @@ func checkC09(r *kit.Run) {
 	if err != nil {
 		r.Fatal("CueLiteral dump: %v", err)
 	}
-	if canary == 0 || caught != canary {
+	if (canary == 0 && r.Violations() == 0) || caught != canary {
 		r.Fatal("canary: %d of %d flipped validity verdicts noticed", caught, canary)
 	}
 
